@@ -72,15 +72,27 @@ def num(s):
 
 
 def close(a, b, scale, rel=1e-11):
-    if a is None or b is None or math.isnan(a) or math.isnan(b):
+    if a is None or b is None:
         return False
+    if math.isnan(a) or math.isnan(b):
+        # an expected nan only ever comes from a nan entry of the input
+        return math.isnan(a) and math.isnan(b)
+    if scale != scale:
+        scale = 0.0
     if math.isinf(a) or math.isinf(b):
         return a == b
     return abs(a - b) <= rel * max(abs(a), abs(b), scale) + 1e-300
 
 
-def gen_grid(rng, nmin=3, nmax=1000, positive=False):
+def gen_grid(rng, nmin=3, nmax=1000, positive=False, long_ok=False):
     r = rng.random()
+    if long_ok and r > 0.985:
+        # very long tables (beyond the 3..1000 of the statement's quantifier)
+        n = rng.choice([5000, 12000, 20000])
+        h = rng.choice([0.0005, 0.001])
+        x0 = 0.05 if positive else rng.choice([0.0, 0.05])
+        xs = [fmt(x0 + i * h) for i in range(n)]
+        return xs, [float(t) for t in xs], h
     if r < 0.25:
         n = rng.randint(nmin, max(nmin, 12))
     elif r < 0.8:
@@ -93,6 +105,89 @@ def gen_grid(rng, nmin=3, nmax=1000, positive=False):
         rng.choice([0.0, 0.0, 0.05, 0.1, 1.0, -0.5])
     xs = [fmt(x0 + i * h) for i in range(n)]
     return xs, [float(s) for s in xs], h
+
+
+
+def inject_nan(rng, ys, flags, prob=0.25):
+    """undefined entries spelled nan / -nan / NaN at rows that are not flagged
+    i (what VOTCA's own tools write for 0/0 in undefined regions)"""
+    if rng.random() > prob:
+        return False
+    hit = False
+    for i in range(len(ys)):
+        if flags[i] != "i" and rng.random() < 0.5:
+            ys[i] = rng.choice(["nan", "-nan", "nan", "NaN"])
+            hit = True
+    return hit
+
+
+def finite(vals):
+    return [v for v in vals if v == v and not math.isinf(v)]
+
+
+def vary_table_text(rng, text, counters=None):
+    """another spelling of the same table: comment lines (# and @) at the top
+    and between rows, blank lines, tabs / several blanks / leading and trailing
+    blanks as separators, scientific notation for the numbers. Numbers keep
+    their exact decimal value (they carry <= 10 significant digits)."""
+    style = {"comments": rng.random() < 0.4, "blank": rng.random() < 0.4,
+             "sep": rng.random() < 0.4, "sci": rng.random() < 0.35,
+             "sci_x": rng.random() < 0.15}
+    if counters is not None:
+        for k, on in style.items():
+            if on:
+                counters["input_variant_" + k] = counters.get("input_variant_" + k, 0) + 1
+    scif = rng.choice(["%.9e", "%.9E", "%.12e"])
+
+    def renum(tok):
+        try:
+            v = float(tok)
+        except ValueError:
+            return tok
+        if v != v or v in (float("inf"), float("-inf")):
+            return tok
+        return scif % v
+    out = []
+    if style["comments"]:
+        out.append(rng.choice(["# generated table", "@    title \"g(r)\"",
+                               "#r y flag", "# a # b @ c"]))
+        if rng.random() < 0.5:
+            out.append("@ xaxis label \"r\"")
+    if style["blank"] and rng.random() < 0.5:
+        out.append("")
+    rows = text.splitlines()
+    for ln in rows:
+        if not ln.strip() or ln[0] in "#@":
+            out.append(ln)
+            continue
+        parts = ln.split()
+        if style["sci"]:
+            parts[1:-1] = [renum(t) for t in parts[1:-1]]
+        if style["sci_x"]:
+            parts[0] = renum(parts[0])
+        if style["sep"]:
+            sep = rng.choice(["\t", "  ", "   ", " \t ", " "])
+            ln = rng.choice(["", " ", "  ", "\t"]) + sep.join(parts) + \
+                rng.choice(["", " ", "  "])
+        else:
+            ln = " ".join(parts)
+        out.append(ln)
+        if style["comments"] and rng.random() < 0.03:
+            out.append("# comment between the rows")
+        if style["blank"] and rng.random() < 0.03:
+            out.append(rng.choice(["", "   "]))
+    if style["blank"] and rng.random() < 0.5:
+        out.append("")
+    return "\n".join(out) + "\n"
+
+
+def vary_inputs(rng, case, counters=None):
+    """apply vary_table_text to every input table of a case (half of the cases)"""
+    if rng.random() < 0.5:
+        return
+    for name in list(case.inputs):
+        case.inputs[name] = vary_table_text(rng, case.inputs[name], counters)
+    case.info["input_spelling_varied"] = True
 
 
 class Case:
@@ -108,6 +203,10 @@ class Case:
         self.info = info or {}
         self.via_csg_call = False
         self.second = None              # optional follow-up stage (pairs)
+        self.env = {}                   # extra environment (sloppy tables)
+        self.csg_call_opts = []         # options for csg_call itself
+        self.stages = None              # pipelines: [(script, args, keys)]
+        self.expect_rc_nonzero = False
 
 
 class Verdict:
@@ -173,7 +272,19 @@ def basic_output_checks(v, fam, case, run, name, xs, with_err=False,
 
 def rand_flags(rng, n, mixed=True):
     """flag column: a defined interval in the middle, o/u outside, sometimes holes"""
-    if not mixed or n < 6 or rng.random() < 0.4:
+    if not mixed:
+        return ["i"] * n
+    r0 = rng.random()
+    if r0 < 0.3:
+        # all three flags in all positions, first and last row included
+        w = rng.choice([(6, 2, 2), (1, 1, 1), (2, 5, 3), (8, 1, 1)])
+        fl = [rng.choice("i" * w[0] + "o" * w[1] + "u" * w[2]) for _ in range(n)]
+        fl[0] = rng.choice("iou")
+        fl[-1] = rng.choice("iou")
+        if "i" not in fl:
+            fl[rng.randrange(n)] = "i"
+        return fl
+    if n < 6 or r0 < 0.6:
         return ["i"] * n
     a = rng.randint(0, n // 3)
     b = rng.randint(n - 1 - n // 3, n - 1)
@@ -272,7 +383,11 @@ def gen_ibi(rng):
     pot = smooth_values(rng, xv)
     pflags = ["i"] * n
     with_u = rng.random() < 0.25
-    if with_u:
+    if with_u and rng.random() < 0.4:
+        pflags = [rng.choice("iiiouu") for _ in range(n)]   # all positions
+        pflags[0] = rng.choice("iou")
+        pflags[-1] = rng.choice("iou")
+    elif with_u:
         for j in range(rng.randint(1, max(1, n // 4))):
             pflags[j] = "u"
         if rng.random() < 0.3:
@@ -411,8 +526,23 @@ def gen_boltzmann(rng):
     if mn:
         args += ["--min", mn]
     args += ["in.dist", "out.pot"]
-    inputs = {"in.dist": table_text(xs, sy, ["i"] * n)}
-    info = {"kBT": kbt, "type": typ, "min": mn, "n": n}
+    inflags = ["i"] * n
+    mixed_in = rng.random() < 0.25
+    if mixed_in:
+        # the input's own flag column mixes i/o/u in all positions (the help
+        # text says nothing about it: only rows flagged i in the input are
+        # judged by the formula then)
+        inflags = [rng.choice("iiiiou") for _ in range(n)]
+        inflags[0] = rng.choice("iou")
+        inflags[-1] = rng.choice("iou")
+    with_nan = rng.random() < 0.25
+    if with_nan:
+        for i in range(n):
+            if float(sy[i]) == 0.0 and rng.random() < 0.5:
+                sy[i] = rng.choice(["nan", "-nan", "NaN"])
+    inputs = {"in.dist": table_text(xs, sy, inflags)}
+    info = {"kBT": kbt, "type": typ, "min": mn, "n": n,
+            "input_flags_mixed": mixed_in, "with_nan_entries": with_nan}
 
     def judge(case, run):
         v = Verdict()
@@ -427,7 +557,8 @@ def gen_boltzmann(rng):
                 runlen += 1
                 j += 1
         if run.rc != 0:
-            if ("Only" in run.err or "All data points" in run.err) and runlen < 12:
+            if ("Only" in run.err or "All data points" in run.err) and \
+                    (runlen < 12 or mixed_in):
                 v.count("boltzmann_dontcare_too_few_valid_points")
                 return v
             v.bad("boltzmann/valid-input-rejected", "the script fails although "
@@ -441,6 +572,9 @@ def gen_boltzmann(rng):
         consts = []
         for i in range(n):
             y = num(p.y[i])
+            if valid[i] and inflags[i] != "i":
+                v.count("boltzmann_dontcare_valid_point_flagged_ou_in_input")
+                continue
             if valid[i]:
                 norm = 1.0
                 if typ == "bond":
@@ -485,76 +619,110 @@ def gen_boltzmann(rng):
 # table_linearop.pl
 # ---------------------------------------------------------------------------
 
+def linearop_rows(xv, ys, errs, flags, A, B, wf, onx):
+    """closed form of the help text: rows selected by --withflag get
+    y' = a*y + b (x' = a*x + b with --on-x, err' = |a|*err), others are kept"""
+    ox, oy, oe = [], [], []
+    for i in range(len(xv)):
+        sel = wf is None or flags[i] in wf
+        y = float(ys[i])
+        e = float(errs[i]) if errs is not None else None
+        x = xv[i]
+        if sel and onx:
+            x = A * x + B
+        elif sel:
+            y = A * y + B
+            if e is not None:
+                e = abs(A) * e
+        ox.append(x)
+        oy.append(y)
+        oe.append(e)
+    return ox, oy, oe
+
+
 def gen_linearop(rng):
-    xs, xv, h = gen_grid(rng)
+    xs, xv, h = gen_grid(rng, long_ok=True)
     n = len(xs)
     ys = [fmt(y) for y in smooth_values(rng, xv)]
     flags = rand_flags(rng, n)
     a = fmt(rng.choice([rng.uniform(-5, 5), -1.0, 0.0, 1.0, 1e-3, 250.0]))
     b = fmt(rng.choice([rng.uniform(-10, 10), 0.0, 0.0, 1.5]))
-    opt = rng.choice(["", "", "withflag", "onx", "errors", "withflag"])
+    # every option alone and in every combination
+    use_wf = rng.random() < 0.4
+    onx = rng.random() < 0.2
+    werr = rng.random() < 0.25
+    sloppy = (not use_wf) and (not werr) and rng.random() < 0.12
     args = []
     wf = None
     errs = None
-    if opt == "withflag":
-        wf = rng.choice(["i", "o", "u", "io"])
+    if use_wf:
+        wf = rng.choice(["i", "o", "u", "io", "ou", "iou"])
         args += ["--withflag", wf]
-    elif opt == "onx":
+    if onx:
         args += ["--on-x"]
-    elif opt == "errors":
+    if werr:
         args += ["--with-errors"]
         errs = [fmt(abs(rng.gauss(0, 0.1))) for _ in range(n)]
+    with_nan = (not onx) and inject_nan(rng, ys, flags)
     args += ["in.tab", "out.tab", a, b]
-    inputs = {"in.tab": table_text(xs, ys, flags, errs,
-                                   "# a comment line" if rng.random() < 0.3 else None)}
-    info = {"a": a, "b": b, "option": opt, "withflag": wf, "n": n}
+    if sloppy:
+        # tables without a flag column (csg_call --sloppy-tables /
+        # VOTCA_TABLES_WITHOUT_FLAG=yes): every row counts as flag i
+        flags = ["i"] * n
+        text = "".join("%s %s\n" % (xs[i], ys[i]) for i in range(n))
+    else:
+        text = table_text(xs, ys, flags, errs,
+                          "# a comment line" if rng.random() < 0.3 else None)
+    inputs = {"in.tab": text}
+    opt = "+".join([k for k, on in (("withflag", use_wf), ("onx", onx),
+                                    ("errors", werr), ("sloppy", sloppy)) if on])
+    info = {"a": a, "b": b, "option": opt, "withflag": wf, "n": n,
+            "with_nan_entries": with_nan}
 
     def judge(case, run):
         v = Verdict()
         fam = "linearop"
         p = basic_output_checks(v, fam, case, run, "out.tab", xs,
-                                with_err=(opt == "errors"), expect_flags=flags,
-                                x_exact=(opt != "onx"))
+                                with_err=werr, expect_flags=flags,
+                                x_exact=not onx)
         if p is None:
             return v
         A, B = float(a), float(b)
+        ex_x, ex_y, ex_e = linearop_rows(xv, ys, errs, flags, A, B, wf, onx)
         changed = 0
         for i in range(n):
             sel = wf is None or flags[i] in wf
-            if opt == "onx":
-                ex = A * xv[i] + B
-                if not close(num(p.x[i]), ex, abs(A * xv[i]) + abs(B)):
-                    v.bad("linearop/formula", "x_new != a*x_old + b (--on-x)",
-                          row=i, got=p.x[i], expected=ex, a=a, b=b)
-                    return v
-                if not close(num(p.y[i]), float(ys[i]), 0):
-                    v.bad("linearop/formula", "--on-x changed the y column",
-                          row=i, got=p.y[i], expected=ys[i])
-                    return v
-                changed += 1
-                continue
-            if sel:
-                ex = A * float(ys[i]) + B
-                changed += 1
-            else:
-                ex = float(ys[i])
-            if not close(num(p.y[i]), ex, abs(A * float(ys[i])) + abs(B)):
-                v.bad("linearop/formula", "y_new != a*y_old + b" if sel else
-                      "an entry whose flag is not selected by --withflag was "
-                      "changed", row=i, flag=flags[i], got=p.y[i], expected=ex,
-                      a=a, b=b, withflag=wf)
+            changed += sel
+            if not close(num(p.x[i]), ex_x[i], abs(A * xv[i]) + abs(B)):
+                v.bad("linearop/formula", "x_new != a*x_old + b (--on-x)" if sel
+                      else "--on-x changed the x of a row not selected by "
+                      "--withflag", row=i, got=p.x[i], expected=ex_x[i], a=a,
+                      b=b, option=opt, withflag=wf)
                 return v
-            if opt == "errors":
+            if not close(num(p.y[i]), ex_y[i],
+                         abs(A * float(ys[i])) + abs(B)):
+                v.bad("linearop/formula", ("--on-x changed the y column" if onx
+                      else "y_new != a*y_old + b") if sel else
+                      "an entry whose flag is not selected by --withflag was "
+                      "changed", row=i, flag=flags[i], got=p.y[i],
+                      expected=ex_y[i], a=a, b=b, withflag=wf, option=opt)
+                return v
+            if werr:
                 e = num(p.err[i])
-                if e is None or not close(abs(e), abs(A) * float(errs[i]), 0):
-                    v.bad("linearop/errors", "error column is not |a|*err",
-                          row=i, got=p.err[i], err_in=errs[i], a=a)
+                if e is None or not close(abs(e), ex_e[i], 0):
+                    v.bad("linearop/errors", "error column is not |a|*err "
+                          "(selected rows) / unchanged (others)",
+                          row=i, got=p.err[i], err_in=errs[i], a=a, option=opt)
                     return v
         v.nontrivial = changed >= 1 and (A != 1.0 or B != 0.0)
         v.sample = {"family": fam, "n": n, "a": a, "b": b, "option": opt}
         return v
-    return Case("linearop", "table_linearop.pl", args, inputs, ["out.tab"],
-                judge, ("table", "linearop"), info)
+    c = Case("linearop", "table_linearop.pl", args, inputs, ["out.tab"],
+             judge, ("table", "linearop"), info)
+    if sloppy:
+        c.env = {"VOTCA_TABLES_WITHOUT_FLAG": "yes"}
+        c.csg_call_opts = ["--sloppy-tables"]
+    return c
 
 
 # ---------------------------------------------------------------------------
@@ -562,7 +730,7 @@ def gen_linearop(rng):
 # ---------------------------------------------------------------------------
 
 def gen_combine(rng):
-    xs, xv, h = gen_grid(rng)
+    xs, xv, h = gen_grid(rng, long_ok=True)
     n = len(xs)
     y1 = [fmt(y) for y in smooth_values(rng, xv)]
     y2 = [fmt(y) for y in smooth_values(rng, xv)]
@@ -577,7 +745,7 @@ def gen_combine(rng):
               for i in range(n)]
     scale = rng.choice([None, None, fmt(rng.uniform(-3, 3)), "0.5"])
     mode = rng.choice(["table", "table", "table", "sum", "withflag", "noflags",
-                       "flagdiff"])
+                       "flagdiff", "sum_withflag"])
     args = ["--op", op]
     if scale:
         args += ["--scale", scale]
@@ -585,6 +753,10 @@ def gen_combine(rng):
     wf = None
     if mode == "sum":
         args += ["--sum"]
+    elif mode == "sum_withflag":
+        # the combination the framework itself uses (postadd_convergence.sh)
+        wf = rng.choice(["i", "o", "io"])
+        args += ["--sum", "--withflag", wf]
     elif mode == "withflag":
         wf = rng.choice(["i", "o", "io"])
         args += ["--withflag", wf]
@@ -593,7 +765,7 @@ def gen_combine(rng):
         flags2[k] = {"i": "o", "o": "u", "u": "i"}[flags[k]]
         if mode == "noflags":
             args += ["--no-flags"]
-    args += ["a.tab", "b.tab"] + ([] if mode == "sum" else ["out.tab"])
+    args += ["a.tab", "b.tab"] + ([] if mode.startswith("sum") else ["out.tab"])
     inputs = {"a.tab": table_text(xs, y1, flags), "b.tab": table_text(xs, y2, flags2)}
     info = {"op": op, "scale": scale, "mode": mode, "withflag": wf, "n": n}
 
@@ -629,15 +801,16 @@ def gen_combine(rng):
                 v.count("combine_flag_mismatch_rejected")
                 v.nontrivial = True
             return v
-        if mode == "sum":
+        if mode.startswith("sum"):
             if run.rc != 0:
                 v.bad("combine/script-failed", "--sum fails", rc=run.rc,
                       stderr=run.err[-800:])
                 return v
             toks = run.out.strip().split()
             got = num(toks[-1]) if toks else None
-            ex = sum(value(i)[0] for i in range(n))
-            sc = sum(value(i)[1] for i in range(n))
+            rows = [i for i in range(n) if wf is None or flags[i] in wf]
+            ex = sum(value(i)[0] for i in rows)
+            sc = sum(value(i)[1] for i in rows)
             if got is None or not close(got, ex, sc, 1e-9):
                 v.bad("combine/sum", "--sum does not print the scaled sum of the "
                       "combined values", got=run.out.strip()[-200:], expected=ex)
@@ -679,7 +852,7 @@ def gen_combine(rng):
         v.sample = {"family": fam, "op": op, "mode": mode, "n": n}
         return v
     c = Case("combine", "table_combine.pl", args, inputs,
-             [] if mode == "sum" else ["out.tab"], judge, ("table", "combine"),
+             [] if mode.startswith("sum") else ["out.tab"], judge, ("table", "combine"),
              info)
     if mode in ("flagdiff",):
         c.csg_call_keys = None
@@ -691,13 +864,19 @@ def gen_combine(rng):
 # ---------------------------------------------------------------------------
 
 def gen_scale(rng):
-    xs, xv, h = gen_grid(rng)
+    xs, xv, h = gen_grid(rng, long_ok=True)
     n = len(xs)
     ys = [fmt(y) for y in smooth_values(rng, xv)]
     flags = rand_flags(rng, n)
     p1 = fmt(rng.choice([rng.uniform(-3, 3), 1.0, 0.0]))
     p2 = fmt(rng.choice([rng.uniform(-3, 3), 1.0, 2.0]))
-    inputs = {"in.tab": table_text(xs, ys, flags)}
+    sloppy = rng.random() < 0.12
+    with_nan = inject_nan(rng, ys, flags)
+    if sloppy:
+        flags = ["i"] * n
+        inputs = {"in.tab": "".join("%s\t%s\n" % (xs[i], ys[i]) for i in range(n))}
+    else:
+        inputs = {"in.tab": table_text(xs, ys, flags)}
 
     def judge(case, run):
         v = Verdict()
@@ -718,8 +897,14 @@ def gen_scale(rng):
         v.nontrivial = P1 != P2
         v.sample = {"family": fam, "n": n, "p1": p1, "p2": p2}
         return v
-    return Case("scale", "table_scale.pl", ["in.tab", "out.tab", p1, p2], inputs,
-                ["out.tab"], judge, ("table", "scale"), {"p1": p1, "p2": p2, "n": n})
+    c = Case("scale", "table_scale.pl", ["in.tab", "out.tab", p1, p2], inputs,
+             ["out.tab"], judge, ("table", "scale"),
+             {"p1": p1, "p2": p2, "n": n, "sloppy": sloppy,
+              "with_nan_entries": with_nan})
+    if sloppy:
+        c.env = {"VOTCA_TABLES_WITHOUT_FLAG": "yes"}
+        c.csg_call_opts = ["--sloppy-tables"]
+    return c
 
 
 # ---------------------------------------------------------------------------
@@ -975,7 +1160,7 @@ def gen_pair(rng):
 # ---------------------------------------------------------------------------
 
 def gen_shift(rng):
-    xs, xv, h = gen_grid(rng)
+    xs, xv, h = gen_grid(rng, long_ok=True)
     n = len(xs)
     yv = smooth_values(rng, xv)
     flags = rand_flags(rng, n)
@@ -997,6 +1182,7 @@ def gen_shift(rng):
             flags[g] = "u"
             yv[g] = lo - rng.uniform(0, 0.2)
     ys = [fmt(y) for y in yv]
+    with_nan = inject_nan(rng, ys, flags, 0.2)
     args = (["--type", typ] if typ else []) + ["in.pot", "out.pot"]
     inputs = {"in.pot": table_text(xs, ys, flags)}
 
@@ -1013,25 +1199,27 @@ def gen_shift(rng):
         if p is None:
             return v
         if bonded:
-            zeros = {min(Y[i] for i in range(n) if flags[i] == "i"), min(Y)}
+            zeros = {min(Y[i] for i in range(n) if flags[i] == "i"),
+                     min(finite(Y))}
         else:
             zeros = {Y[-1]}
         if len(zeros) > 1:
             v.count("shift_minimum_outside_valid_region_either_accepted")
-        sc = max(abs(y) for y in Y)
+        sc = max(abs(y) for y in finite(Y))
         ok = False
         for z in zeros:
             if all(close(num(p.y[i]), Y[i] - z, sc) for i in range(n)):
                 ok = True
         if not ok:
-            z = sorted(zeros)[0]
+            z = sorted(zeros, key=str)[0]
             i = [k for k in range(n) if not close(num(p.y[k]), Y[k] - z, sc)][0]
             v.bad("shift/formula", "the table is not the input shifted by its "
                   "%s" % ("minimum" if bonded else "last value"), row=i,
                   got=p.y[i], expected=Y[i] - z, type=typ)
             return v
         v.nontrivial = any(z != 0.0 for z in zeros)
-        v.sample = {"family": fam, "n": n, "type": typ, "shift": sorted(zeros)[0]}
+        v.sample = {"family": fam, "n": n, "type": typ,
+                    "shift": sorted(zeros, key=str)[0], "nan_entries": with_nan}
         return v
     return Case("shift", "potential_shift.pl", args, inputs, ["out.pot"], judge,
                 ("potential", "shift"), {"type": typ, "n": n})
@@ -1041,8 +1229,44 @@ def gen_shift(rng):
 # table_smooth.pl
 # ---------------------------------------------------------------------------
 
+def smooth_step_check(v, Y, out, flags, expect_smoothing, step=None):
+    """what every 3-point smoother satisfies (table_smooth.pl documents no
+    formula): each value within the range of the input at the point and its
+    two neighbours; for all-i tables the total variation does not grow.
+    Rows whose neighbourhood holds a nan entry are not judged."""
+    n = len(Y)
+    sc = max([abs(y) for y in finite(Y)] + [0.0]) + 1e-300
+    for i in range(n):
+        nb = Y[max(0, i - 1):i + 2]
+        if any(y != y for y in nb):
+            continue
+        lo, hi = min(nb), max(nb)
+        if out[i] is None or not (lo - 1e-11 * sc <= out[i] <= hi + 1e-11 * sc):
+            v.bad("smooth/not-a-local-average", "a smoothed value lies "
+                  "outside the range of the input at the point and its two "
+                  "neighbours", row=i, got=out[i], neighbourhood=nb,
+                  smoothing_pass=step)
+            return False
+    if all(f == "i" for f in flags):
+        tv_in = sum(abs(Y[i + 1] - Y[i]) for i in range(n - 1))
+        tv_out = sum(abs(out[i + 1] - out[i]) for i in range(n - 1))
+        if tv_out > tv_in * (1 + 1e-9) + 1e-11 * sc:
+            v.bad("smooth/variation-increased", "total variation of the "
+                  "smoothed table exceeds that of the input",
+                  tv_in=tv_in, tv_out=tv_out, smoothing_pass=step)
+            return False
+        v.nontrivial = tv_in > 0 and tv_out < tv_in * (1 - 1e-9)
+        if expect_smoothing and n >= 5 and not tv_out < tv_in:
+            v.bad("smooth/no-smoothing", "a noisy table is returned "
+                  "unsmoothed", tv_in=tv_in, tv_out=tv_out, smoothing_pass=step)
+            return False
+    else:
+        v.nontrivial = any(not close(out[i], Y[i], sc) for i in range(n))
+    return True
+
+
 def gen_smooth(rng):
-    xs, xv, h = gen_grid(rng)
+    xs, xv, h = gen_grid(rng, long_ok=True)
     n = len(xs)
     kind = rng.choice(["noisy", "constant", "smooth"])
     if kind == "constant":
@@ -1055,6 +1279,7 @@ def gen_smooth(rng):
         yv = smooth_values(rng, xv)
     ys = [fmt(y) for y in yv]
     flags = rand_flags(rng, n)
+    inject_nan(rng, ys, flags, 0.2)
     inputs = {"in.tab": table_text(xs, ys, flags)}
 
     def judge(case, run):
@@ -1065,31 +1290,9 @@ def gen_smooth(rng):
         if p is None:
             return v
         Y = [float(s) for s in ys]
-        sc = max(abs(y) for y in Y) + 1e-300
         out = [num(s) for s in p.y]
-        for i in range(n):
-            nb = Y[max(0, i - 1):i + 2]
-            lo, hi = min(nb), max(nb)
-            if not (lo - 1e-11 * sc <= out[i] <= hi + 1e-11 * sc):
-                v.bad("smooth/not-a-local-average", "a smoothed value lies "
-                      "outside the range of the input at the point and its two "
-                      "neighbours", row=i, got=p.y[i], neighbourhood=nb)
-                return v
-        if all(f == "i" for f in flags):
-            tv_in = sum(abs(Y[i + 1] - Y[i]) for i in range(n - 1))
-            tv_out = sum(abs(out[i + 1] - out[i]) for i in range(n - 1))
-            if tv_out > tv_in * (1 + 1e-9) + 1e-11 * sc:
-                v.bad("smooth/variation-increased", "total variation of the "
-                      "smoothed table exceeds that of the input",
-                      tv_in=tv_in, tv_out=tv_out)
-                return v
-            v.nontrivial = tv_in > 0 and tv_out < tv_in * (1 - 1e-9)
-            if kind == "noisy" and n >= 5 and not tv_out < tv_in:
-                v.bad("smooth/no-smoothing", "a noisy table is returned "
-                      "unsmoothed", tv_in=tv_in, tv_out=tv_out)
-                return v
-        else:
-            v.nontrivial = any(not close(out[i], Y[i], sc) for i in range(n))
+        if not smooth_step_check(v, Y, out, flags, kind == "noisy"):
+            return v
         v.sample = {"family": fam, "n": n, "kind": kind}
         return v
     return Case("smooth", "table_smooth.pl", ["in.tab", "out.tab"], inputs,
@@ -1100,17 +1303,68 @@ def gen_smooth(rng):
 # table_extrapolate.pl
 # ---------------------------------------------------------------------------
 
-def gen_extrapolate(rng):
-    xs, xv, h = gen_grid(rng, nmin=14, nmax=400, positive=True)
+def extrap_expected(xv, Y, flags, a, b, func, A, C, region, noflag):
+    """table_extrapolate.pl by its help text: [a, b] = first/last row flagged
+    i; rows left of a / right of b follow the named function through
+    (x0, y0) = the border point with slope m = (y[i+A]-y[i])/(x[i+A]-x[i]);
+    their flag becomes i unless --no-flagupdate; everything else is kept."""
+    n = len(xv)
+    do_l = region in (None, "left", "leftright")
+    do_r = region in (None, "right", "leftright")
+    eflags = list(flags)
+    if not noflag:
+        for i in range(n):
+            if (i < a and do_l) or (i > b and do_r):
+                eflags[i] = "i"
+
+    def ext(x0, y0, m, x):
+        if func == "constant":
+            return y0
+        if func in ("linear", "periodic"):
+            return m * (x - x0) + y0
+        if func == "quadratic":
+            aa = m / (2 * C) - x0
+            bb = y0 - m * m / (4 * C)
+            return C * (x + aa) ** 2 + bb
+        if func == "exponential":
+            return y0 * math.exp(-m * x0 / y0) * math.exp(m / y0 * x)
+        bb = x0 - 2 * y0 / m                      # sasha
+        return m * m / (4 * y0) * (x - bb) ** 2
+    exp_y = list(Y)
+    if do_l and a > 0:
+        m = 0.0 if func == "constant" else \
+            (Y[a + A] - Y[a]) / (xv[a + A] - xv[a])
+        for i in range(a):
+            exp_y[i] = ext(xv[a], Y[a], m, xv[i])
+    if do_r and b < n - 1:
+        if func == "constant":
+            m = 0.0
+        elif func == "periodic":
+            m = (exp_y[0] - Y[b]) / (xv[-1] - xv[b])
+        else:
+            m = (Y[b] - Y[b - A]) / (xv[b] - xv[b - A])
+        for i in range(b + 1, n):
+            exp_y[i] = ext(xv[b], Y[b], m, xv[i])
+    inner = [a <= i <= b or (i < a and not do_l) or (i > b and not do_r)
+             for i in range(n)]
+    return exp_y, eflags, inner
+
+
+def extrap_table(rng, nmin=14, nmax=400):
+    """a table for extrapolation: rows a..b flagged i (sometimes a = 0 or
+    b = n-1: nothing to do on that side; sometimes o/u holes inside), o/u
+    flanks holding arbitrary numbers or nan"""
+    xs, xv, h = gen_grid(rng, nmin=nmin, nmax=nmax, positive=True)
     n = len(xs)
     A = rng.randint(1, 5)
     a = rng.randint(1, max(1, n // 4))
     b = n - 1 - rng.randint(1, max(1, n // 4))
+    if rng.random() < 0.12:
+        a = 0                      # first row already valid
+    if rng.random() < 0.12:
+        b = n - 1                  # last row already valid
     if b - a < A + 2:
         a, b = 2, n - 3
-    fn = rng.choice(["constant", "linear", "quadratic", "quadratic",
-                     "exponential", "sasha", "periodic", None])
-    region = rng.choice(["left", "right", "leftright", None])
     L = xv[-1] - xv[0]
     # positive, strictly monotone inner data (exponential/sasha need y0 != 0, m != 0)
     k = rng.uniform(0.5, 3) / L
@@ -1118,10 +1372,31 @@ def gen_extrapolate(rng):
     sgn = rng.choice([1, -1])
     yv = [amp * math.exp(-sgn * k * (x - xv[0])) + 0.1 for x in xv]
     flags = ["i" if a <= i <= b else rng.choice("ou") for i in range(n)]
-    ys = [fmt(yv[i]) if flags[i] == "i" else fmt(rng.uniform(-99, 99))
+    holes = 0
+    if rng.random() < 0.3 and b - a > 6:
+        for _ in range(rng.randint(1, 3)):
+            flags[rng.randint(a + 1, b - 1)] = rng.choice("ou")
+            holes += 1
+    ys = [fmt(yv[i]) if a <= i <= b else fmt(rng.uniform(-99, 99))
           for i in range(n)]
+    nan_flanks = rng.random() < 0.3
+    if nan_flanks:
+        for i in list(range(a)) + list(range(b + 1, n)):
+            if rng.random() < 0.6:
+                ys[i] = rng.choice(["nan", "-nan", "NaN"])
+    return xs, xv, ys, flags, a, b, A, L, {"holes": holes, "nan_flanks": nan_flanks}
+
+
+def extrap_options(rng):
+    fn = rng.choice(["constant", "linear", "quadratic", "quadratic",
+                     "exponential", "sasha", "periodic", None])
+    region = rng.choice(["left", "right", "leftright", None])
     curv = rng.choice([None, None, fmt(rng.uniform(10, 5000))])
     noflag = rng.random() < 0.25
+    return fn, region, curv, noflag
+
+
+def extrap_args(A, fn, region, curv, noflag):
     args = ["--avgpoints", str(A)]
     if fn:
         args += ["--function", fn]
@@ -1131,74 +1406,48 @@ def gen_extrapolate(rng):
         args += ["--curvature", curv]
     if noflag:
         args += ["--no-flagupdate"]
-    args += ["in.tab", "out.tab"]
+    return args
+
+
+def gen_extrapolate(rng):
+    xs, xv, ys, flags, a, b, A, L, extra = extrap_table(rng)
+    n = len(xs)
+    fn, region, curv, noflag = extrap_options(rng)
+    args = extrap_args(A, fn, region, curv, noflag) + ["in.tab", "out.tab"]
     inputs = {"in.tab": table_text(xs, ys, flags)}
     info = {"function": fn, "region": region, "avgpoints": A, "curvature": curv,
             "no_flagupdate": noflag, "n": n, "valid": [a, b]}
+    info.update(extra)
 
     def judge(case, run):
         v = Verdict()
         fam = "extrapolate"
-        do_l = region in (None, "left", "leftright")
-        do_r = region in (None, "right", "leftright")
-        eflags = list(flags)
-        if not noflag:
-            for i in range(n):
-                if (i < a and do_l) or (i > b and do_r):
-                    eflags[i] = "i"
+        Y = [float(s) for s in ys]
+        C = float(curv) if curv else 10000.0
+        func = fn or "quadratic"
+        exp_y, eflags, inner = extrap_expected(xv, Y, flags, a, b, func, A, C,
+                                               region, noflag)
         p = basic_output_checks(v, fam, case, run, "out.tab", xs,
                                 expect_flags=eflags)
         if p is None:
             return v
-        Y = [float(s) for s in ys]
-        C = float(curv) if curv else 10000.0
-        func = fn or "quadratic"
-
-        def ext(x0, y0, m, x):
-            if func == "constant":
-                return y0
-            if func in ("linear", "periodic"):
-                return m * (x - x0) + y0
-            if func == "quadratic":
-                aa = m / (2 * C) - x0
-                bb = y0 - m * m / (4 * C)
-                return C * (x + aa) ** 2 + bb
-            if func == "exponential":
-                return y0 * math.exp(-m * x0 / y0) * math.exp(m / y0 * x)
-            bb = x0 - 2 * y0 / m                      # sasha
-            return m * m / (4 * y0) * (x - bb) ** 2
-        exp_y = list(Y)
-        if do_l:
-            m = 0.0 if func == "constant" else \
-                (Y[a + A] - Y[a]) / (xv[a + A] - xv[a])
-            for i in range(a):
-                exp_y[i] = ext(xv[a], Y[a], m, xv[i])
-        if do_r:
-            if func == "constant":
-                m = 0.0
-            elif func == "periodic":
-                m = (exp_y[0] - Y[b]) / (xv[-1] - xv[b])
-            else:
-                m = (Y[b] - Y[b - A]) / (xv[b] - xv[b - A])
-            for i in range(b + 1, n):
-                exp_y[i] = ext(xv[b], Y[b], m, xv[i])
         nex = 0
         for i in range(n):
-            inner = a <= i <= b or (i < a and not do_l) or (i > b and not do_r)
-            if not inner:
+            if not inner[i]:
                 nex += 1
-            sc = abs(exp_y[i]) + (0 if inner else abs(Y[a]) + abs(Y[b]) +
+            sc = abs(exp_y[i]) + (0 if inner[i] else abs(Y[a]) + abs(Y[b]) +
                                   C * L * L * (func == "quadratic"))
-            if not close(num(p.y[i]), exp_y[i], sc, 1e-11 if inner else 1e-7):
-                v.bad("extrapolate/" + ("inner-values-changed" if inner else
+            if not close(num(p.y[i]), exp_y[i], sc, 1e-11 if inner[i] else 1e-7):
+                v.bad("extrapolate/" + ("inner-values-changed" if inner[i] else
                                         "formula"),
-                      "values outside the extrapolated region changed" if inner
+                      "values outside the extrapolated region changed" if inner[i]
                       else "extrapolated value differs from the formula of the "
                       "help text (%s)" % func, row=i, r=xs[i], got=p.y[i],
                       expected=exp_y[i], function=func, avgpoints=A,
                       region=region)
                 return v
-        if func == "periodic" and do_r and b < n - 1:
+        if func == "periodic" and region in (None, "right", "leftright") \
+                and b < n - 1:
             if not close(num(p.y[-1]), num(p.y[0]), abs(Y[a]) + abs(Y[b]), 1e-7):
                 v.bad("extrapolate/periodic-end", "periodic: the right end does "
                       "not end at the first point of the left side",
@@ -1212,11 +1461,348 @@ def gen_extrapolate(rng):
                 ["out.tab"], judge, ("table", "extrapolate"), info)
 
 
+
+# ---------------------------------------------------------------------------
+# table compare = table_combine.pl --die --op = [--error ERR]
+# ---------------------------------------------------------------------------
+
+def gen_compare(rng):
+    xs, xv, h = gen_grid(rng)
+    n = len(xs)
+    yv = [y if abs(y) > 0.1 else 0.5 for y in smooth_values(rng, xv)]
+    y1 = [fmt(y) for y in yv]
+    flags = rand_flags(rng, n)
+    kind = rng.choice(["identical", "rel1e-3", "rel1e-3_loose", "one_row"])
+    eps = None
+    y2 = list(y1)
+    k = rng.randrange(n)
+    if kind in ("rel1e-3", "rel1e-3_loose"):
+        y2 = [fmt(float(t) * 1.001) for t in y1]
+        if kind == "rel1e-3_loose":
+            eps = "0.01"           # 10x above the deviation -> equal
+    elif kind == "one_row":
+        y2[k] = fmt(float(y1[k]) * 1.5 + 1.0)
+        eps = rng.choice([None, "1e-7"])
+    expect_equal = kind in ("identical", "rel1e-3_loose")
+    args = (["--error", eps] if eps else []) + ["a.tab", "b.tab"]
+    inputs = {"a.tab": table_text(xs, y1, flags), "b.tab": table_text(xs, y2, flags)}
+    info = {"kind": kind, "error": eps, "n": n, "expect_equal": expect_equal}
+
+    def judge(case, run):
+        v = Verdict()
+        if expect_equal and run.rc != 0:
+            v.bad("compare/equal-tables-reported-different", "table compare "
+                  "(table_combine.pl --die --op =) dies for tables that agree "
+                  "within the relative error", kind=kind, error=eps,
+                  stderr=run.err[-500:])
+        elif not expect_equal and run.rc == 0:
+            v.bad("compare/different-tables-accepted", "table compare does not "
+                  "die although the tables differ by more than the relative "
+                  "error", kind=kind, error=eps, row=k)
+        v.nontrivial = kind != "identical"
+        v.sample = {"family": "compare", "kind": kind, "error": eps, "n": n,
+                    "rc": run.rc}
+        return v
+    c = Case("compare", "table_combine.pl", ["--die", "--op", "="] + args,
+             inputs, [], judge, ("table", "compare"), info)
+    c.csg_call_args = args          # csg_table supplies "--die --op ="
+    c.expect_rc_nonzero = not expect_equal
+    return c
+
+
+# ---------------------------------------------------------------------------
+# table_combine.pl on tables with nan entries in undefined (o/u) rows
+# ---------------------------------------------------------------------------
+
+def gen_combine_nan(rng):
+    xs, xv, h = gen_grid(rng, nmin=6)
+    n = len(xs)
+    y1 = [fmt(y) for y in smooth_values(rng, xv)]
+    y2 = [fmt(y) if abs(y) > 1e-3 else "0.5" for y in smooth_values(rng, xv)]
+    a = rng.randint(1, max(1, n // 3))
+    flags = ["u"] * a + ["i"] * (n - a)
+    for i in range(a):
+        if rng.random() < 0.7 or i == 0:
+            y1[i] = rng.choice(["nan", "-nan", "NaN"])
+        if rng.random() < 0.5:
+            y2[i] = rng.choice(["nan", "-nan"])
+    op = rng.choice(["+", "-", "x", "/", "d", "d2"])
+    args = ["--op", op, "a.tab", "b.tab", "out.tab"]
+    inputs = {"a.tab": table_text(xs, y1, flags), "b.tab": table_text(xs, y2, flags)}
+
+    def judge(case, run):
+        v = Verdict()
+        fam = "combine_nan"
+        if run.rc != 0 and "Could not calculate" in run.err:
+            v.bad("combine/nan-entry-arithmetic-dies", "table_combine.pl --op "
+                  "%s dies on tables whose undefined (u) rows hold nan: the "
+                  "value is pasted into an eval string as a bareword" % op,
+                  op=op, stderr=run.err[-400:])
+            return v
+        p = basic_output_checks(v, fam, case, run, "out.tab", xs,
+                                expect_flags=flags)
+        if p is None:
+            return v
+        for i in range(n):
+            u, w = float(y1[i]), float(y2[i])
+            ex = {"+": u + w, "-": u - w, "x": u * w, "/": u / w,
+                  "d": abs(u - w), "d2": (u - w) ** 2}[op]
+            if not close(num(p.y[i]), ex, abs(u) + abs(w)):
+                v.bad("combine/formula", "y != y1 op y2 (tables with nan "
+                      "entries)", row=i, op=op, y1=y1[i], y2=y2[i], got=p.y[i],
+                      expected=ex)
+                return v
+        v.nontrivial = True
+        v.sample = {"family": fam, "op": op, "n": n, "nan_rows": a}
+        return v
+    return Case("combine_nan", "table_combine.pl", args, inputs, ["out.tab"],
+                judge, ("table", "combine"), {"op": op, "n": n, "nan_rows": a})
+
+
+# ---------------------------------------------------------------------------
+# pipelines: the output of one script is the input of the next one
+# ---------------------------------------------------------------------------
+
+def gen_pipeline(rng):
+    kind = rng.choice(["linearop_combine_scale", "linearop_combine_scale",
+                       "extrapolate_shift", "smooth_n", "linearop_twice",
+                       "integrate_negate", "scale_twice_same_file"])
+    if kind in ("linearop_combine_scale", "linearop_twice",
+                "scale_twice_same_file"):
+        xs, xv, h = gen_grid(rng)
+        n = len(xs)
+        y0 = [fmt(y) for y in smooth_values(rng, xv)]
+        y2 = [fmt(y) for y in smooth_values(rng, xv)]
+        flags = rand_flags(rng, n)
+        a = fmt(rng.uniform(-3, 3))
+        b = fmt(rng.uniform(-5, 5))
+        a2 = fmt(rng.uniform(-3, 3))
+        b2 = fmt(rng.uniform(-5, 5))
+        wf = rng.choice([None, None, "i", "ou"])
+        op = rng.choice(["+", "-", "x", "d"])
+        p1 = fmt(rng.uniform(-2, 2))
+        p2 = fmt(rng.uniform(-2, 2))
+        inputs = {"in.tab": table_text(xs, y0, flags,
+                                       comment="# start" if rng.random() < 0.5 else None),
+                  "b.tab": table_text(xs, y2, flags)}
+        wfa = ["--withflag", wf] if wf else []
+        if kind == "linearop_combine_scale":
+            stages = [("table_linearop.pl", wfa + ["in.tab", "t1.tab", a, b], ("table", "linearop")),
+                      ("table_combine.pl", ["--op", op, "t1.tab", "b.tab", "t2.tab"], ("table", "combine")),
+                      ("table_scale.pl", ["t2.tab", "final.tab", p1, p2], ("table", "scale"))]
+        elif kind == "linearop_twice":
+            stages = [("table_linearop.pl", wfa + ["in.tab", "t1.tab", a, b], ("table", "linearop")),
+                      ("table_linearop.pl", ["t1.tab", "final.tab", a2, b2], ("table", "linearop"))]
+        else:
+            # the same script twice, second run reads the first run's output
+            stages = [("table_scale.pl", ["in.tab", "t1.tab", p1, p2], ("table", "scale")),
+                      ("table_scale.pl", ["t1.tab", "final.tab", p2, p1], ("table", "scale"))]
+        info = {"kind": kind, "n": n, "a": a, "b": b, "a2": a2, "b2": b2,
+                "withflag": wf, "op": op, "p1": p1, "p2": p2}
+
+        def judge(case, run):
+            v = Verdict()
+            fam = "pipeline_" + kind
+            p = basic_output_checks(v, fam, case, run, "final.tab", xs,
+                                    expect_flags=flags)
+            if p is None:
+                return v
+            A, B, A2, B2 = float(a), float(b), float(a2), float(b2)
+            P1, P2 = float(p1), float(p2)
+            for i in range(n):
+                y = float(y0[i])
+                t = i / (n - 1.0)
+                if kind == "linearop_combine_scale":
+                    sel = wf is None or flags[i] in wf
+                    t1 = A * y + B if sel else y
+                    w = float(y2[i])
+                    t2 = {"+": t1 + w, "-": t1 - w, "x": t1 * w,
+                          "d": abs(t1 - w)}[op]
+                    ex = t2 * (P1 + (P2 - P1) * t)
+                    sc = (abs(A * y) + abs(B) + abs(w) + abs(A * y * w) +
+                          abs(B * w)) * (abs(P1) + abs(P2))
+                elif kind == "linearop_twice":
+                    sel = wf is None or flags[i] in wf
+                    t1 = A * y + B if sel else y
+                    ex = A2 * t1 + B2
+                    sc = abs(A2) * (abs(A * y) + abs(B)) + abs(B2)
+                else:
+                    ex = y * (P1 + (P2 - P1) * t) * (P2 + (P1 - P2) * t)
+                    sc = abs(y) * (abs(P1) + abs(P2)) ** 2
+                if not close(num(p.y[i]), ex, sc, 1e-10):
+                    v.bad("pipeline/" + kind, "the composed closed form of the "
+                          "scripts' help texts does not describe the result of "
+                          "running them one after the other", row=i, r=xs[i],
+                          got=p.y[i], expected=ex, y_in=y0[i], flag=flags[i],
+                          info=info)
+                    return v
+            v.nontrivial = True
+            v.sample = {"family": fam, "n": n, "stages": len(stages)}
+            return v
+        c = Case("pipeline", stages[0][0], stages[0][1], inputs, ["final.tab"],
+                 judge, None, info)
+        c.stages = stages
+        return c
+    if kind == "smooth_n":
+        xs, xv, h = gen_grid(rng)
+        n = len(xs)
+        base = smooth_values(rng, xv)
+        ys = [fmt(bv + rng.gauss(0, 0.3)) for bv in base]
+        flags = rand_flags(rng, n)
+        k = rng.randint(2, 5)
+        names = ["in.tab"] + ["s%d.tab" % j for j in range(1, k + 1)]
+        stages = [("table_smooth.pl", [names[j], names[j + 1]], ("table", "smooth"))
+                  for j in range(k)]
+        inputs = {"in.tab": table_text(xs, ys, flags)}
+        info = {"kind": kind, "n": n, "passes": k}
+
+        def judge(case, run):
+            v = Verdict()
+            fam = "pipeline_smooth_n"
+            prev = [float(t) for t in ys]
+            tv = []
+            for j in range(1, k + 1):
+                p = basic_output_checks(v, fam, case, run, names[j], xs,
+                                        expect_flags=flags)
+                if p is None:
+                    return v
+                out = [num(t) for t in p.y]
+                if not smooth_step_check(v, prev, out, flags, False, step=j):
+                    return v
+                tv.append(sum(abs(out[i + 1] - out[i]) for i in range(n - 1)))
+                prev = out
+            v.nontrivial = True
+            v.sample = {"family": fam, "n": n, "passes": k,
+                        "total_variation_per_pass": tv[:5]}
+            return v
+        c = Case("pipeline", stages[0][0], stages[0][1], inputs, names[1:],
+                 judge, None, info)
+        c.stages = stages
+        return c
+    if kind == "extrapolate_shift":
+        xs, xv, ys, flags, a, b, A, L, extra = extrap_table(rng, nmax=300)
+        n = len(xs)
+        fn = rng.choice(["constant", "linear", "quadratic", None])
+        region = rng.choice(["leftright", None, "left", "right"])
+        curv = rng.choice([None, fmt(rng.uniform(10, 5000))])
+        typ = rng.choice([None, "non-bonded", "bond", "bonded", "angle"])
+        stages = [("table_extrapolate.pl", extrap_args(A, fn, region, curv, False) +
+                   ["in.tab", "t1.tab"], ("table", "extrapolate")),
+                  ("potential_shift.pl", (["--type", typ] if typ else []) +
+                   ["t1.tab", "final.tab"], ("potential", "shift"))]
+        inputs = {"in.tab": table_text(xs, ys, flags)}
+        info = {"kind": kind, "n": n, "function": fn, "region": region,
+                "avgpoints": A, "curvature": curv, "type": typ, "valid": [a, b]}
+        info.update(extra)
+
+        def judge(case, run):
+            v = Verdict()
+            fam = "pipeline_extrapolate_shift"
+            Y = [float(t) for t in ys]
+            C = float(curv) if curv else 10000.0
+            func = fn or "quadratic"
+            e1, eflags, inner = extrap_expected(xv, Y, flags, a, b, func, A, C,
+                                                region, False)
+            p = basic_output_checks(v, fam, case, run, "final.tab", xs,
+                                    expect_flags=eflags)
+            if p is None:
+                return v
+            bonded = typ in ("bond", "bonded", "angle")
+            if bonded:
+                zi = [e1[i] for i in range(n) if eflags[i] == "i"]
+                zeros = {min(zi)} | ({min(finite(e1))} if finite(e1) else set())
+            else:
+                zeros = {e1[-1]}
+            big = max(abs(t) for t in finite(e1))
+            ok = False
+            for z in zeros:
+                if all(close(num(p.y[i]), e1[i] - z, big + abs(z) if z == z else big,
+                             1e-7) for i in range(n)):
+                    ok = True
+            if not ok:
+                z = sorted(zeros, key=str)[0]
+                i = [j for j in range(n)
+                     if not close(num(p.y[j]), e1[j] - z, big, 1e-7)][0]
+                v.bad("pipeline/extrapolate_shift", "extrapolation followed by "
+                      "potential_shift is not the extrapolated table minus its "
+                      "%s" % ("minimum" if bonded else "last value"), row=i,
+                      got=p.y[i], expected=e1[i] - z, info=info)
+                return v
+            v.nontrivial = True
+            v.sample = {"family": fam, "n": n, "function": func, "type": typ}
+            return v
+        c = Case("pipeline", stages[0][0], stages[0][1], inputs, ["final.tab"],
+                 judge, None, info)
+        c.stages = stages
+        return c
+    # integrate_negate: "the force is the NEGATIVE integral of the potential
+    # (use 'table linearop' and multiply the table with -1)"
+    xs, xv, h = gen_grid(rng, nmin=5, nmax=400)
+    n = len(xs)
+    x0, L = xv[0], xv[-1] - xv[0]
+    f = Fn(rng, x0, L, h)
+    ys = [fmt(f.d(x)) for x in xv]
+    flags = rand_flags(rng, n)
+    stages = [("table_integrate.pl", ["in.tab", "t1.tab"], ("table", "integrate")),
+              ("table_linearop.pl", ["t1.tab", "final.tab", "-1", "0"], ("table", "linearop"))]
+    inputs = {"in.tab": table_text(xs, ys, flags)}
+    info = {"kind": kind, "n": n, "h": h, "function": f.describe()}
+
+    def judge(case, run):
+        v = Verdict()
+        fam = "pipeline_integrate_negate"
+        p = basic_output_checks(v, fam, case, run, "final.tab", xs,
+                                expect_flags=flags)
+        if p is None:
+            return v
+        cum = [0.0]
+        for i in range(1, n):
+            cum.append(cum[-1] + simpson(f.d, xv[i - 1], xv[i]))
+        m2 = max_abs(lambda x: f.d(x, 2), xv[0], xv[-1])
+        gmax = max_abs(lambda x: f.d(x, 0), xv[0], xv[-1])
+        tol = 1.5 * L * h * h / 12 * m2 + 2e-9 * L * gmax + 1e-12
+        for i in range(n):
+            ex = -(cum[i] - cum[-1])
+            if not abs(num(p.y[i]) - ex) <= tol:
+                v.bad("pipeline/integrate_negate", "table integrate followed by "
+                      "table linearop -1 0 is not minus the integral (zero at "
+                      "the right end) within the trapezoid bound", row=i,
+                      got=p.y[i], expected=ex, bound=tol, info=info)
+                return v
+        v.nontrivial = True
+        v.sample = {"family": fam, "n": n, "h": h}
+        return v
+    c = Case("pipeline", stages[0][0], stages[0][1], inputs, ["final.tab"],
+             judge, None, info)
+    c.stages = stages
+    return c
+
+
 GENERATORS = [("ibi", gen_ibi, 4), ("boltzmann", gen_boltzmann, 3),
               ("linearop", gen_linearop, 2), ("combine", gen_combine, 3),
               ("scale", gen_scale, 1), ("integrate", gen_integrate, 3),
               ("pair", gen_pair, 3), ("shift", gen_shift, 1),
-              ("smooth", gen_smooth, 1), ("extrapolate", gen_extrapolate, 2)]
+              ("smooth", gen_smooth, 1), ("extrapolate", gen_extrapolate, 2),
+              ("compare", gen_compare, 1), ("combine_nan", gen_combine_nan, 1),
+              ("pipeline", gen_pipeline, 4)]
+
+# key pairs of csg_table that the families above dispatch through csg_call,
+# with the script each pair stands for in the manual
+DISPATCH = {("update", "ibi_pot"): "update_ibi_pot.pl",
+            ("dist", "invert"): "dist_boltzmann_invert.pl",
+            ("table", "integrate"): "table_integrate.pl",
+            ("table", "extrapolate"): "table_extrapolate.pl",
+            ("table", "smooth"): "table_smooth.pl",
+            ("table", "linearop"): "table_linearop.pl",
+            ("table", "combine"): "table_combine.pl",
+            ("table", "compare"): "table_combine.pl --die --op =",
+            ("table", "scale"): "table_scale.pl",
+            ("potential", "shift"): "potential_shift.pl"}
+
+HELP_SCRIPTS = ["update_ibi_pot.pl", "dist_boltzmann_invert.pl",
+                "table_integrate.pl", "table_linearop.pl", "table_combine.pl",
+                "table_scale.pl", "potential_shift.pl", "table_smooth.pl",
+                "table_extrapolate.pl"]
 
 
 def schedule():
